@@ -175,6 +175,9 @@ theorem row_bounds {s : State} (h : Inv s) {c : Int} (vc : s.validCell c) (hp : 
 
 /-! ### Part B.1: what no move changes (rows, sizes, polarities, turn status) -/
 
+-- (sub-namespace: Proofs/OrientDetailed.lean has a different `Keep` for C04 in `ColoVerif.DetPlace`)
+namespace Lg
+
 /-- `t` has the rows, the number of cells and the polarities of `s`; an orientation is either kept or
 is the (known) orientation a row of `s` demands for the cell's polarity -/
 def Keep (s t : State) : Prop :=
@@ -341,6 +344,8 @@ theorem Keep.turn {s t : State} (k : Keep s t) (hrows : ∀ r ∈ s.rows, r.orie
     rw [hpol hp, e1]
     exact coir_unturned _ _ hro
 
+end Lg
+
 /-! ### Part B.2: the state of a circuit, the exported circuit -/
 
 /-- `s` is a state of the detailed placement of circuit `c` (row height `H`): rows and widths are
@@ -365,7 +370,7 @@ theorem stateOf_of_run {c : Circuit} (hd : Legalize.DomL c) {s0 s : State} (e0 :
   obtain ⟨H, lists, hrh, B⟩ := fromIspdCircuit_built e0
   have hH0 : (Circuit.rowHeight c).getD 0 = H := by rw [hrh]; rfl
   obtain ⟨fw, fi⟩ := run_frame e
-  have k := run_keep e
+  have k := Lg.run_keep e
   refine ⟨H, hrh, ?_, ?_, ?_, ?_, ?_⟩
   · rw [k.1, B.rows]
   · rw [k.2.1, B.nCells]
@@ -629,6 +634,8 @@ theorem export_legal {c : Circuit} (hd : Legalize.DomL c) (hl : Legalize.LegalL 
 
 /-! ### Part B.4: every optimised cell stays placed along every history -/
 
+namespace Lg
+
 /-- every optimised cell is placed (`allPlaced` as a proposition) -/
 def AllPlaced (s : State) : Prop := ∀ d, s.validCell d → s.width d ≠ -1 → s.row d ≠ -1
 
@@ -820,5 +827,7 @@ theorem run_allPlaced {s t : State} (h : AllPlaced s) {ops : List Op} (e : s.run
     · cases e
     · rename_i u eu
       exact ih (step_allPlaced h eu) e
+
+end Lg
 
 end ColoVerif.DetPlace
